@@ -218,3 +218,457 @@ Theorem source_legendre_loops :
   /\ (src_legendre_advance_9 = true /\ src_legendre_loop_9 = seq 2 (half 9 - 2))
   /\ (src_legendre_advance_13 = true /\ src_legendre_loop_13 = seq 2 (half 13 - 2)).
 Proof. repeat split; reflexivity. Qed.
+
+(* ---------------------------------------------------------------- T09.4 *)
+(* Kahan's recurrence: the Gram matrix of the returned factor
+   L = tril((U * sqrt(odds)[:,None] * (1/f)[None,:])^T) is
+   (L L^T)[j][j'] = sum_i U[i][j] U[i][j'] odds[i] / (f[j] f[j'])  = kahan_gram,
+   and equals the (shifted) Hilbert matrix 1/(i+j+K+1) for K <= 3, n <= 11. *)
+Definition kahan_check (K n : nat) : bool :=
+  meqb n n (@kahan_gram Qc _ K n) (@hilbert Qc _ K n).
+
+Theorem kahan_hilbert_gram :
+  forall K n, K <= 3 -> n <= 11 ->
+  forall i j, i < n -> j < n ->
+    mget (@kahan_gram Qc _ K n) i j = mget (@hilbert Qc _ K n) i j.
+Proof.
+  assert (Hall : forallb (fun K => forallb (fun n => kahan_check K n) (seq 0 12)) (seq 0 4) = true)
+    by (vm_compute; reflexivity).
+  intros K n HK Hn.
+  pose proof (forallb_seq_le _ _ Hall K HK) as H1. cbv beta in H1.
+  pose proof (forallb_seq_le _ _ H1 n Hn) as H2. cbv beta in H2.
+  exact (meqb_true n n _ _ H2).
+Qed.
+
+(* system_matrices_1d_iwp: Gram of the re-triangularised flipped factor = flipped Hilbert
+   matrix of Model/Prior.v, for q <= 10 *)
+Theorem kahan_flip_is_hilbert_flip :
+  forall q, q <= 10 ->
+  forall i j, i < S q -> j < S q ->
+    mget (@kahan_gram_flip Qc _ q) i j = mget (@hilbert_flip Qc _ q) i j.
+Proof.
+  assert (Hall : forallb (fun q => meqb (S q) (S q) (@kahan_gram_flip Qc _ q) (@hilbert_flip Qc _ q))
+                         (seq 0 11) = true) by (vm_compute; reflexivity).
+  intros q Hq. pose proof (forallb_seq_le _ _ Hall q Hq) as H1. cbv beta in H1.
+  exact (meqb_true (S q) (S q) _ _ H1).
+Qed.
+
+(* the squared entries reported by the model are the squares of a lower-triangular factor
+   whose Gram matrix is kahan_gram: L2[j][i] = U[i][j]^2 odds[i] / f[j]^2 *)
+Example kahan_L2_3 :
+  map (map (fun x => this x)) (@kahan_L2 Qc _ 0 3)
+  = [[1#1; 0#1; 0#1]; [1#4; 1#12; 0#1]; [1#9; 1#12; 1#180]]%Q.
+Proof. vm_compute. reflexivity. Qed.
+
+(* ================================================================= algebra *)
+Section ExpGramAlgebra.
+  Context {F : Type} `{FL : FieldLaws F}.
+  Local Open Scope F_scope.
+  Add Field FFe : fth.
+  Local Notation mat := (@mat F).
+  Local Notation vec := (@vec F).
+
+  (* ------------------------------------------------------------ T09.7 *)
+  (* one doubling step maps (Phi(h), G(h)) to (Phi(2h), G(2h)) whenever the pair obeys the
+     semigroup laws of a linear time-invariant SDE *)
+  Theorem doubling_step_exact n (Phi_h G_h Phi_2h G_2h : mat) :
+    Phi_2h = mmul n n n Phi_h Phi_h ->
+    G_2h = madd n n G_h (sandwich n n Phi_h G_h) ->
+    eg_double n (Phi_h, G_h) = (Phi_2h, G_2h).
+  Proof. intros -> ->. reflexivity. Qed.
+
+  (* ... hence num doublings started from the exact pair at step h return the exact pair at
+     step 2^num h: Ph k, Gm k stand for Phi(2^k h), G(2^k h) *)
+  Theorem doubling_exact n (Ph Gm : nat -> mat) :
+    (forall k, Ph (S k) = mmul n n n (Ph k) (Ph k)) ->
+    (forall k, Gm (S k) = madd n n (Gm k) (sandwich n n (Ph k) (Gm k))) ->
+    forall num k, iter num (eg_double n) (Ph k, Gm k) = (Ph (num + k)%nat, Gm (num + k)%nat).
+  Proof.
+    intros HP HG num. induction num as [|num IH]; intro k; cbn [iter].
+    - reflexivity.
+    - rewrite (doubling_step_exact n (Ph k) (Gm k) (Ph (S k)) (Gm (S k)) (HP k) (HG k)).
+      rewrite IH. replace (num + S k)%nat with (S num + k)%nat by lia. reflexivity.
+  Qed.
+
+  Lemma vsum_split a b (f : nat -> F) :
+    vsum (a + b) f = vsum a f + vsum b (fun i => f (a + i)%nat).
+  Proof.
+    induction b as [|b IH].
+    - rewrite Nat.add_0_r. simpl. ring.
+    - rewrite Nat.add_succ_r. simpl. rewrite IH. ring.
+  Qed.
+
+  (* the square-root implementation: stack = (U, Phi U) (n x 2n), U' = qr_r(stack^T)^T.
+     Under the QR contract R^T R = M^T M (M = stack^T) the new Gram matrix U' U'^T is
+     Gamma + Phi Gamma Phi^T with Gamma = U U^T. *)
+  Definition dbl_stack (n : nat) (Phi U : mat) : mat :=
+    mk n (n + n) (fun i j => if Nat.ltb j n then mget U i j
+                             else mget (mmul n n n Phi U) i (j - n)).
+
+  Lemma stack_gram n (Phi U : mat) :
+    mmul n (n + n) n (dbl_stack n Phi U) (mtr n (n + n) (dbl_stack n Phi U))
+    = madd n n (mmul n n n U (mtr n n U))
+               (sandwich n n Phi (mmul n n n U (mtr n n U))).
+  Proof.
+    unfold sandwich.
+    rewrite <- (mmul_assoc n n n n Phi U (mtr n n U)).
+    rewrite (mmul_assoc n n n n (mmul n n n Phi U) (mtr n n U) (mtr n n Phi)).
+    rewrite <- (mtr_mmul n n n Phi U).
+    unfold madd. unfold mmul at 1. apply mk_ext. intros i j Hi Hj.
+    rewrite vsum_split. f_equal.
+    - rewrite mget_mmul by assumption. apply vsum_ext. intros l Hl.
+      rewrite mget_mtr by lia. unfold dbl_stack. rewrite !mget_mk by lia.
+      assert (Hlt : Nat.ltb l n = true) by (apply Nat.ltb_lt; exact Hl). rewrite Hlt.
+      rewrite mget_mtr by assumption. reflexivity.
+    - rewrite mget_mmul by assumption. apply vsum_ext. intros l Hl.
+      rewrite mget_mtr by lia. unfold dbl_stack. rewrite !mget_mk by lia.
+      assert (Hge : Nat.ltb (n + l) n = false) by (apply Nat.ltb_ge; lia). rewrite Hge.
+      replace (n + l - n)%nat with l by lia.
+      rewrite mget_mtr by assumption. reflexivity.
+  Qed.
+
+  Theorem doubling_sqrt_form n r (Phi U R : mat) :
+    (* QR contract for M = stack^T : R is r x n with R^T R = M^T M = stack stack^T *)
+    mmul n r n (mtr r n R) R
+      = mmul n (n + n) n (dbl_stack n Phi U) (mtr n (n + n) (dbl_stack n Phi U)) ->
+    (* U' = R^T ;  U' U'^T = R^T R *)
+    mmul n r n (mtr r n R) (mtr n r (mtr r n R))
+      = snd (eg_double n (Phi, mmul n n n U (mtr n n U))).
+  Proof.
+    intro HQR. cbn [eg_double snd fst]. rewrite <- stack_gram. rewrite <- HQR.
+    rewrite mtr_mtr. rewrite mmul_canon_r. reflexivity.
+  Qed.
+  (* the QR contract is satisfiable for every stack: R = stack^T itself *)
+  Example doubling_sqrt_form_hypothesis_satisfiable n (Phi U : mat) :
+    let R := mtr n (n + n) (dbl_stack n Phi U) in
+    mmul n (n + n) n (mtr (n + n) n R) R
+      = mmul n (n + n) n (dbl_stack n Phi U) (mtr n (n + n) (dbl_stack n Phi U)).
+  Proof. cbv zeta. rewrite mtr_mtr. rewrite mmul_canon_l. reflexivity. Qed.
+End ExpGramAlgebra.
+
+(* the hypotheses of doubling_exact are satisfiable (scalar Ornstein-Uhlenbeck-like pair) *)
+Example doubling_exact_hypotheses_satisfiable :
+  exists (Ph Gm : nat -> @mat Qc),
+    (forall k, Ph (S k) = mmul 1 1 1 (Ph k) (Ph k))
+    /\ (forall k, Gm (S k) = madd 1 1 (Gm k) (sandwich 1 1 (Ph k) (Gm k))).
+Proof.
+  exists (fix ph k := match k with O => [[Q2Qc (1#2)]] | S k' => mmul 1 1 1 (ph k') (ph k') end).
+  exists (fix gm k := match k with
+                      | O => [[Q2Qc 1]]
+                      | S k' => madd 1 1 (gm k')
+                          (sandwich 1 1 ((fix ph k := match k with O => [[Q2Qc (1#2)]]
+                                                     | S k' => mmul 1 1 1 (ph k') (ph k') end) k')
+                                    (gm k'))
+                      end).
+  split; intro k; reflexivity.
+Qed.
+
+(* ---------------------------------------------------------------- T09.8 *)
+(* the drift matrices of the exponential priors: prior_exponential_diffuse takes
+   bottom_block = jacfwd(vf_flat) of the (linear) `autonomous` map, i.e. its matrix *)
+Section ExpPriorDrift.
+  Context {F : Type} `{FL : FieldLaws F}.
+  Local Open Scope F_scope.
+  Add Field FFd : fth.
+  Local Notation mat := (@mat F).
+  Local Notation vec := (@vec F).
+
+  Lemma last_map_seq {X : Type} (f : nat -> X) q dflt : last (map f (seq 0 (S q))) dflt = f q.
+  Proof. rewrite seq_S, map_app. simpl. apply last_last. Qed.
+  Lemma nth_map_seq {X : Type} (f : nat -> X) n i dflt : i < n -> nth i (map f (seq 0 n)) dflt = f i.
+  Proof.
+    intro Hi. rewrite nth_indep with (d' := f 0%nat) by (rewrite map_length, seq_length; exact Hi).
+    rewrite map_nth. rewrite seq_nth by exact Hi. reflexivity.
+  Qed.
+
+  Lemma vsum_indicator_r n j (f : nat -> F) : j < n ->
+    vsum n (fun k => f k * (if Nat.eqb k j then 1 else 0)) = f j.
+  Proof.
+    intro Hj. rewrite <- (vsum_delta_r n j f Hj). apply vsum_ext. intros k _. reflexivity.
+  Qed.
+
+  (* OU: the Jacobian of jet_coords |-> linop(jet_coords[-1]) is (0 | ... | 0 | Lop) *)
+  Theorem ou_bottom_block q d (Lop : mat) :
+    jac_of q d (ou_autonomous d Lop) = ou_bottom q d Lop.
+  Proof.
+    unfold jac_of, ou_bottom. apply mk_ext. intros r c Hr Hc.
+    assert (Hd : (0 < d)%nat) by lia.
+    assert (Ha : (c mod d < d)%nat) by (apply Nat.mod_upper_bound; lia).
+    unfold ou_autonomous. rewrite vget_mkv by assumption.
+    unfold basis_coords. rewrite last_map_seq.
+    rewrite (vsum_ext d _ (fun a => (if Nat.eqb q (c / d) then mget Lop r a else 0)
+                                   * (if Nat.eqb a (c mod d) then 1 else 0))).
+    2:{ intros a Ha'. rewrite vget_mkv by assumption.
+        destruct (Nat.eqb q (c / d)); destruct (Nat.eqb a (c mod d)); simpl; ring. }
+    rewrite vsum_indicator_r by assumption. rewrite (Nat.eqb_sym (c / d) q). reflexivity.
+  Qed.
+
+  (* Matern: the Jacobian of jet_coords |-> -(sum_i comb(D,i) z^(D-i) jet_coords[i]), D = q+1,
+     has the blocks -comb(D,i) z^(D-i) I_d *)
+  Theorem matern_bottom_block q d (z : F) :
+    jac_of q d (matern_autonomous d z) = matern_bottom q d z.
+  Proof.
+    unfold jac_of, matern_bottom. apply mk_ext. intros r c Hr Hc.
+    assert (Hd : (0 < d)%nat) by lia.
+    assert (Hk : (c / d < S q)%nat) by (apply Nat.div_lt_upper_bound; lia).
+    unfold matern_autonomous. rewrite vget_mkv by assumption.
+    assert (HD : length (basis_coords q d (c / d) (c mod d)) = S q)
+      by (unfold basis_coords; rewrite map_length, seq_length; reflexivity).
+    rewrite HD.
+    rewrite (vsum_ext (S q) _ (fun i => (if Nat.eqb r (c mod d)
+                                         then fcomb (S q) i * fpow z (S q - i) else 0)
+                                        * (if Nat.eqb i (c / d) then 1 else 0))).
+    2:{ intros i Hi. unfold basis_coords. rewrite nth_map_seq by assumption.
+        rewrite vget_mkv by assumption.
+        destruct (Nat.eqb i (c / d)); destruct (Nat.eqb r (c mod d)); cbn [andb]; ring. }
+    rewrite vsum_indicator_r by assumption. rewrite (Nat.eqb_sym (c mod d) r).
+    destruct (Nat.eqb r (c mod d)); ring.
+  Qed.
+
+  (* documented drift: shifted identity above the bottom block *)
+  Theorem drift_matrix_entries q d (bottom : mat) i j :
+    (i < S q * d)%nat -> (j < S q * d)%nat ->
+    mget (drift_matrix q d bottom) i j
+    = if Nat.ltb i (q * d) then (if Nat.eqb j (i + d) then 1 else 0)
+      else mget bottom (i - q * d) j.
+  Proof. intros Hi Hj. unfold drift_matrix. rewrite mget_mk by assumption. reflexivity. Qed.
+End ExpPriorDrift.
+
+(* ------------------------------------------------ the statements over the list of orders *)
+Lemma pade_order_all :
+  forall p b, In (p, b) [(3, src_pade_3); (5, src_pade_5); (7, src_pade_7); (9, src_pade_9);
+                         (13, src_pade_13)] ->
+    pade_order_holds p b.
+Proof.
+  intros p b Hin. destruct pade_order as (H3 & H5 & H7 & H9 & H13).
+  repeat (destruct Hin as [Heq|Hin]; [inversion Heq; subst; assumption|]). destruct Hin.
+Qed.
+
+Lemma legendre_gram_order_all :
+  forall p bP C norms,
+    In (p, bP, C, norms)
+       [(3, src_pade_3, src_legendre_3, src_legendre_norms_3);
+        (5, src_pade_5, src_legendre_5, src_legendre_norms_5);
+        (7, src_pade_7, src_legendre_7, src_legendre_norms_7);
+        (9, src_pade_9, src_legendre_9, src_legendre_norms_9);
+        (13, src_pade_13, src_legendre_13, src_legendre_norms_13)] ->
+    legendre_gram_order_holds p bP C norms.
+Proof.
+  intros p bP C norms Hin. destruct legendre_gram_order as (H3 & H5 & H7 & H9 & H13).
+  repeat (destruct Hin as [Heq|Hin]; [inversion Heq; subst; assumption|]). destruct Hin.
+Qed.
+
+(* ----------------------------------------------------------------
+   Where the model is organised differently from the code:
+   (a) B / sqrt(2^num) before the initialiser  vs  Gramian / 2^num after it;
+   (b) the hand-written blocks of the order-3 function vs the generic loop;
+   (c) the grouped high powers of the order-13 Pade polynomials vs the generic sum. *)
+Section Homogeneity.
+  Context {F : Type} `{FL : FieldLaws F}.
+  Local Open Scope F_scope.
+  Add Field FFh : fth.
+  Local Notation mat := (@mat F).
+  Local Notation vec := (@vec F).
+
+  Lemma mmul_mscale_r n k m c (A B : mat) :
+    mmul n k m A (mscale k m c B) = mscale n m c (mmul n k m A B).
+  Proof.
+    unfold mmul at 1, mscale at 2. apply mk_ext. intros i j Hi Hj.
+    rewrite mget_mmul by assumption. rewrite <- vsum_scale_l. apply vsum_ext. intros l Hl.
+    rewrite mget_mscale by assumption. ring.
+  Qed.
+  Lemma mscale_madd n m c (X Y : mat) :
+    madd n m (mscale n m c X) (mscale n m c Y) = mscale n m c (madd n m X Y).
+  Proof.
+    unfold madd at 1, mscale at 3. apply mk_ext. intros i j Hi Hj.
+    rewrite mget_madd by assumption. rewrite !mget_mscale by assumption. ring.
+  Qed.
+  Lemma mscale_mscale_comm n m c x (X : mat) :
+    mscale n m x (mscale n m c X) = mscale n m c (mscale n m x X).
+  Proof.
+    unfold mscale at 1 3. apply mk_ext. intros i j Hi Hj. rewrite !mget_mscale by assumption. ring.
+  Qed.
+  Lemma mscale_mzero n m c : mscale n m c (mzero n m) = (mzero n m : mat).
+  Proof.
+    unfold mscale, mzero. apply mk_ext. intros i j Hi Hj. rewrite mget_mk by assumption. ring.
+  Qed.
+
+  Lemma mapi_map {X Y Z : Type} (f : nat -> Y -> Z) (g : X -> Y) (l : list X) :
+    mapi f (map g l) = mapi (fun i x => f i (g x)) l.
+  Proof.
+    unfold mapi. rewrite map_length.
+    generalize (seq 0 (length l)) as s. induction l as [|x l IH]; intros [|i s]; simpl; try reflexivity.
+    f_equal. apply IH.
+  Qed.
+  Lemma map_mapi {X Y Z : Type} (g : Y -> Z) (f : nat -> X -> Y) (l : list X) :
+    map g (mapi f l) = mapi (fun i x => g (f i x)) l.
+  Proof. unfold mapi. rewrite map_map. reflexivity. Qed.
+  Lemma mapi_ext {X Y : Type} (f g : nat -> X -> Y) (l : list X) :
+    (forall i x, f i x = g i x) -> mapi f l = mapi g l.
+  Proof. intro Hfg. unfold mapi. apply map_ext. intros [i x]. apply Hfg. Qed.
+  Lemma interleave_map {X Y : Type} (g : X -> Y) (a b : list X) :
+    interleave (map g a) (map g b) = map g (interleave a b).
+  Proof.
+    revert b. induction a as [|x a IH]; intros [|y b]; simpl; try reflexivity.
+    rewrite IH. reflexivity.
+  Qed.
+
+  (* a state of the Legendre loop scaled by c in its accumulators *)
+  Definition st_scale (n mB : nat) (c : F) (st : mat * (list mat * list mat))
+    : mat * (list mat * list mat) :=
+    (fst st, (map (mscale n mB c) (fst (snd st)), map (mscale n mB c) (snd (snd st)))).
+
+  Lemma leg_start_scale n mB m C A2 (B : mat) c :
+    leg_start n mB m C A2 (mscale n mB c B) = st_scale n mB c (leg_start n mB m C A2 B).
+  Proof.
+    unfold leg_start, st_scale. cbn [fst snd]. rewrite mmul_mscale_r.
+    rewrite !map_app. cbn [map].
+    rewrite !(mscale_mscale_comm n mB c). rewrite !mscale_madd.
+    assert (Hz : forall k, map (mscale n mB c) (repeat (mzero n mB) k) = repeat (mzero n mB : mat) k).
+    { induction k as [|k IH]; simpl; [reflexivity|]. rewrite IH, mscale_mzero. reflexivity. }
+    rewrite Hz. reflexivity.
+  Qed.
+
+  Lemma leg_step_scale adv n mB C A2 (B : mat) c st k :
+    leg_step adv n mB C A2 (mscale n mB c B) (st_scale n mB c st) k
+    = st_scale n mB c (leg_step adv n mB C A2 B st k).
+  Proof.
+    unfold leg_step, st_scale. cbn [fst snd]. rewrite mmul_mscale_r.
+    rewrite !mapi_map, !map_mapi. f_equal. f_equal.
+    - apply mapi_ext. intros i x. rewrite (mscale_mscale_comm n mB c). apply mscale_madd.
+    - apply mapi_ext. intros i x. rewrite (mscale_mscale_comm n mB c). apply mscale_madd.
+  Qed.
+
+  (* the Legendre right-hand sides are linear in B *)
+  Theorem leg_blocks_scale adv n mB p C A (B : mat) c :
+    leg_blocks_gen adv n mB p C A (mscale n mB c B)
+    = map (mscale n mB c) (leg_blocks_gen adv n mB p C A B).
+  Proof.
+    unfold leg_blocks_gen. rewrite leg_start_scale.
+    set (A2 := mmul n n n A A).
+    assert (Hf : forall ks st,
+      fold_left (leg_step adv n mB C A2 (mscale n mB c B)) ks (st_scale n mB c st)
+      = st_scale n mB c (fold_left (leg_step adv n mB C A2 B) ks st)).
+    { induction ks as [|k ks IH]; intro st; simpl; [reflexivity|].
+      rewrite leg_step_scale. apply IH. }
+    rewrite Hf. unfold st_scale at 1 2. cbn [fst snd].
+    rewrite <- interleave_map. f_equal.
+    rewrite !map_map. apply map_ext. intro X. apply mmul_mscale_r.
+  Qed.
+
+  Lemma nth_map_in {X Y : Type} (g : X -> Y) (l : list X) k dx dy :
+    k < length l -> nth k (map g l) dy = g (nth k l dx).
+  Proof.
+    revert k. induction l as [|x l IH]; intros [|k] Hk; simpl in *; try lia; [reflexivity|].
+    apply IH. lia.
+  Qed.
+
+  (* ... hence their Gram matrix is quadratic in the scale of B *)
+  Theorem leg_gram_scale n mB norms (Ls : list mat) c :
+    leg_gram n mB norms (map (mscale n mB c) Ls) = mscale n n (c * c) (leg_gram n mB norms Ls).
+  Proof.
+    symmetry. unfold mscale at 1. unfold leg_gram at 2. apply mk_ext. intros i j Hi Hj.
+    unfold leg_gram. rewrite mget_mk by assumption. rewrite map_length.
+    rewrite <- vsum_scale_l. apply vsum_ext. intros k Hk.
+    rewrite (nth_map_in (mscale n mB c) Ls k [] []) by exact Hk.
+    rewrite (vsum_ext mB (fun a => mget (mscale n mB c (nth k Ls [])) i a * mget (mscale n mB c (nth k Ls [])) j a)
+                      (fun a => (c * c) * (mget (nth k Ls []) i a * mget (nth k Ls []) j a))).
+    2:{ intros a Ha. rewrite !mget_mscale by assumption. ring. }
+    rewrite vsum_scale_l. rewrite !(Fdiv_def fth). ring.
+  Qed.
+
+  Lemma mmul_mscale_l n k m c (A B : mat) :
+    mmul n k m (mscale n k c A) B = mscale n m c (mmul n k m A B).
+  Proof.
+    unfold mmul at 1, mscale at 2. apply mk_ext. intros i j Hi Hj.
+    rewrite mget_mmul by assumption. rewrite <- vsum_scale_l. apply vsum_ext. intros l Hl.
+    rewrite mget_mscale by assumption. ring.
+  Qed.
+  Lemma sandwich_mscale n m c (A P : mat) :
+    sandwich n m A (mscale m m c P) = mscale n n c (sandwich n m A P).
+  Proof. unfold sandwich. rewrite mmul_mscale_r, mmul_mscale_l. reflexivity. Qed.
+
+  (* PadeLegendre.init at Gram level: scaling B by c scales the Gramian by c^2 and leaves e^A alone *)
+  Theorem pl_init_scale adv n mB T A (B : mat) c :
+    pl_init_gen adv n mB T A (mscale n mB c B)
+    = match pl_init_gen adv n mB T A B with
+      | None => None
+      | Some (Phi, Gam) => Some (Phi, mscale n n (c * c) Gam)
+      end.
+  Proof.
+    unfold pl_init_gen. destruct (minv n (pade_D n (pl_p T) (pl_pade T) A)) as [Di|]; [|reflexivity].
+    rewrite leg_blocks_scale, leg_gram_scale, sandwich_mscale. reflexivity.
+  Qed.
+
+  (* exp_gram_cholesky scales B by 1/sqrt(2^num) BEFORE the initialiser; the model scales the
+     initial Gramian by 1/2^num AFTER it.  For any s with s^2 = 1/2^num the two coincide. *)
+  Theorem exp_gram_scaling_of_B n mB T num A (B : mat) s :
+    s * s = finv (fpow (1 + 1) num) ->
+    exp_gram n mB T num A B
+    = match pl_init n mB T (mscale n n (finv (fpow (1 + 1) num)) A) (mscale n mB s B) with
+      | None => None
+      | Some PG => Some (iter num (eg_double n) PG)
+      end.
+  Proof.
+    intro Hs. unfold exp_gram, pl_init. rewrite pl_init_scale. rewrite Hs.
+    destruct (pl_init_gen (fun _ => true) n mB T (mscale n n (finv (fpow (1 + 1) num)) A) B)
+      as [[Phi Gam]|]; reflexivity.
+  Qed.
+
+  (* the order-3 function writes its four blocks by hand; they are the generic loop's blocks
+     whenever C[1,3] = 0 (true for the source table: legendre_coeffs[1] = [0, 60, 0, 0]) *)
+  Theorem leg_blocks3_is_generic n mB (C A B : mat) :
+    mget C 1 3 = 0 -> leg_blocks n mB 3 C A B = leg_blocks3 n mB C A B.
+  Proof.
+    intro HC. unfold leg_blocks, leg_blocks_gen, leg_blocks3, leg_start.
+    change (half 3) with 2%nat. cbn [Nat.sub seq fold_left fst snd repeat app map interleave].
+    rewrite HC. f_equal. f_equal; [|f_equal; f_equal].
+    - unfold mmul at 1, mscale at 3. apply mk_ext. intros i j Hi Hj.
+      rewrite mget_mmul by assumption. rewrite <- vsum_scale_l. apply vsum_ext. intros l Hl.
+      rewrite mget_madd by assumption. rewrite !mget_mscale by assumption. ring.
+    - rewrite mmul_mscale_r. rewrite <- mmul_assoc. reflexivity.
+  Qed.
+End Homogeneity.
+
+Section Pade13.
+  Context {F : Type} `{FL : FieldLaws F}.
+  Local Open Scope F_scope.
+  Add Field FFp13 : fth.
+  Local Notation mat := (@mat F).
+
+  (* seven-term matrix polynomial in A2, generic form vs the grouping of pade_and_legendre_13 *)
+  Lemma grouped13 n (A2 : mat) c0 c1 c2 c3 c4 c5 c6 :
+    let A4 := mmul n n n A2 A2 in let A6 := mmul n n n A4 A2 in
+    let s := mscale n n in let pl := madd n n in
+    mcomb n 7 [c0; c1; c2; c3; c4; c5; c6] (a2_powers n A2 6)
+    = pl (pl (pl (pl (mmul n n n A6 (pl (pl (s c6 A6) (s c5 A4)) (s c4 A2)))
+                     (s c3 A6)) (s c2 A4)) (s c1 A2)) (s c0 (mid n)).
+  Proof.
+    cbv zeta. cbn [a2_powers app last].
+    rewrite !mmul_add_r, !mmul_mscale_r.
+    rewrite (mmul_id_l n n A2). rewrite (mmul_canon_l n n n A2 A2).
+    set (Q2 := mmul n n n A2 A2). set (Q3 := mmul n n n Q2 A2).
+    rewrite (mmul_assoc n n n n Q3 A2 A2). fold Q2.
+    rewrite (mmul_assoc n n n n Q3 Q2 A2). fold Q3.
+    unfold mcomb. unfold madd at 1. apply mk_ext. intros i j Hi Hj.
+    cbn [vsum nth tget].
+    repeat (rewrite mget_madd by assumption). repeat (rewrite mget_mscale by assumption).
+    rewrite mget_canon by assumption. ring.
+  Qed.
+  Theorem pade13_is_generic n (b : list F) (A : mat) :
+    pade13_V n b A = pade_V n 13 b A /\ pade13_U n b A = pade_U n 13 b A.
+  Proof.
+    unfold pade_V, pade_U. change (half 13) with 7%nat.
+    cbn [Nat.sub evens odds seq map Nat.mul Nat.add].
+    rewrite !grouped13. split; reflexivity.
+  Qed.
+End Pade13.
+
+
+(* the order-3 source table satisfies the side condition of leg_blocks3_is_generic *)
+Example src_legendre_3_entry_1_3 : @mget Qc _ (map (map qc) src_legendre_3) 1 3 = Q2Qc 0.
+Proof. apply Qc_is_canon. reflexivity. Qed.
+(* a scale s with s^2 = 1/2^num exists over Qc whenever num is even, e.g. num = 2, s = 1/2 *)
+Example exp_gram_scaling_hypothesis_satisfiable :
+  ((Q2Qc (1#2)) * (Q2Qc (1#2)) = finv (fpow (1 + 1) 2))%F.
+Proof. apply Qc_is_canon. reflexivity. Qed.
